@@ -483,6 +483,43 @@ func TestCampaign(t *testing.T) {
 			}
 		})
 	})
+	t.Run("large-scripts", func(t *testing.T) {
+		// a large RIB (dozens of next-hops and groups, 100+ prefixes) loaded in requests of up
+		// to 64 operations: Gets abandoned with few, ~32, ~64 and many entries still to be
+		// streamed, and requests cut at the K-th response deep inside a large batch
+		rapid.Check(t, func(rt *rapid.T) {
+			if rapid.IntRange(0, 5).Draw(rt, "large?") != 3 {
+				return
+			}
+			bc := hgen.DefaultBulk()
+			bc.BuildOnly = true
+			h := hgen.DrawBulk(rt, bc)
+			h.FwdRefs = false
+			nops := len(h.Steps)
+			batch := rapid.IntRange(24, 64).Draw(rt, "batch")
+			load := Fault{Kind: "modify", NBatches: 9999, Cut: 9999, Read: true, Mode: "halfclose"}
+			var cases []Case
+			seen := map[int]bool{}
+			for _, g := range []int{0, 1, 2, 3, 7, nops / 2, nops - 66, nops - 65, nops - 64, nops - 34, nops - 33, nops - 32, nops - 31, nops - 17, nops - 2, nops - 1} {
+				if g < 0 || seen[g] {
+					continue
+				}
+				seen[g] = true
+				cases = append(cases, Case{H: h, Batch: batch, Faults: []Fault{load, {Kind: "get", GetCut: g}}})
+			}
+			nb := (nops + batch - 1) / batch
+			for _, k := range []int{3, batch / 2, batch - 1, batch, batch + 1, batch + 2, batch + 3, 2 + batch + 16, 2 + batch + 32, 2 + batch + 33, nops} {
+				for _, mode := range modes[3:] {
+					cases = append(cases, Case{H: h, Batch: batch, Faults: []Fault{{Kind: "modify", NBatches: nb, Cut: 2 + nb, Mode: mode, K: k}}})
+				}
+			}
+			for _, c := range cases {
+				v := runCase(c)
+				v.Class("large-script")
+				col.Check(rt, ev.JSON(c), v)
+			}
+		})
+	})
 	t.Run("fault-sequences", func(t *testing.T) {
 		rapid.Check(t, func(rt *rapid.T) {
 			c := Case{H: drawHistory(rt), Batch: rapid.IntRange(1, 5).Draw(rt, "batch")}
